@@ -86,6 +86,16 @@ struct Sched {
     /// points executed per thread
     points: [u64; 2],
     deadlock: bool,
+    /// CPU-time clocks of the two job threads (to tell a blocked partner from a slow one)
+    clocks: [Option<libc::clockid_t>; 2],
+}
+fn thread_cpu_ms(c: Option<libc::clockid_t>) -> u64 {
+    let Some(c) = c else { return 0 };
+    let mut ts = libc::timespec { tv_sec: 0, tv_nsec: 0 };
+    if unsafe { libc::clock_gettime(c, &mut ts) } != 0 {
+        return 0;
+    }
+    ts.tv_sec as u64 * 1000 + ts.tv_nsec as u64 / 1_000_000
 }
 struct Shared {
     m: Mutex<Sched>,
@@ -96,7 +106,7 @@ thread_local! {
     static TID: Cell<usize> = const { Cell::new(usize::MAX) };
 }
 fn shared() -> &'static Arc<Shared> {
-    SHARED.get_or_init(|| Arc::new(Shared { m: Mutex::new(Sched { current: 0, finished: [true, true], plan: vec![], taken: vec![], points: [0, 0], deadlock: false }), cv: Condvar::new() }))
+    SHARED.get_or_init(|| Arc::new(Shared { m: Mutex::new(Sched { current: 0, finished: [true, true], plan: vec![], taken: vec![], points: [0, 0], deadlock: false, clocks: [None, None] }), cv: Condvar::new() }))
 }
 fn hook(_kind: u32) {
     let t = TID.with(|c| c.get());
@@ -113,14 +123,25 @@ fn hook(_kind: u32) {
         if !g.finished[other] {
             g.current = other;
             sh.cv.notify_all();
-            // wait for the baton (with a horizon: a silent partner is a deadlock)
+            // wait for the baton, with a horizon: a partner that has not consumed any CPU time for 20 s
+            // (or has not handed the baton back within 10 min) is blocked, i.e. a deadlock; a partner that
+            // is merely slow on a loaded machine keeps the wait alive
             let mut waited = 0;
+            let mut total = 0;
+            let mut last_cpu = thread_cpu_ms(g.clocks[other]);
             while g.current != t {
                 let (g2, to) = sh.cv.wait_timeout(g, Duration::from_millis(500)).unwrap();
                 g = g2;
                 if to.timed_out() {
-                    waited += 1;
-                    if waited > 40 {
+                    let cpu = thread_cpu_ms(g.clocks[other]);
+                    total += 1;
+                    if cpu > last_cpu {
+                        waited = 0;
+                        last_cpu = cpu;
+                    } else {
+                        waited += 1;
+                    }
+                    if waited > 40 || total > 1200 {
                         g.deadlock = true;
                         g.current = t;
                     }
@@ -141,7 +162,7 @@ pub fn execute(ja: usize, jb: usize, first: usize, plan: Vec<(usize, u64)>) -> E
     let sh = shared().clone();
     {
         let mut g = sh.m.lock().unwrap();
-        *g = Sched { current: first, finished: [false, false], taken: vec![false; plan.len()], plan, points: [0, 0], deadlock: false };
+        *g = Sched { current: first, finished: [false, false], taken: vec![false; plan.len()], plan, points: [0, 0], deadlock: false, clocks: [None, None] };
     }
     let jobs = [ja, jb];
     let hs: Vec<_> = (0..2)
@@ -155,6 +176,10 @@ pub fn execute(ja: usize, jb: usize, first: usize, plan: Vec<(usize, u64)>) -> E
                     TID.with(|c| c.set(t));
                     {
                         let mut g = sh.m.lock().unwrap();
+                        let mut cid: libc::clockid_t = 0;
+                        if unsafe { libc::pthread_getcpuclockid(libc::pthread_self(), &mut cid) } == 0 {
+                            g.clocks[t] = Some(cid);
+                        }
                         while g.current != t {
                             g = sh.cv.wait(g).unwrap();
                         }
